@@ -1193,6 +1193,20 @@ class Sim:
                                                         "std::ops::FnOnce::call_once")) and "resolved" not in t["callee"]:
             clo = self._deref(args[0], path)
             tup = self._deref(args[1], path)
+            if isinstance(clo, FnItem) and isinstance(tup, Tup) and not t.get("_redispatched"):
+                # `parse_contents(self, close)` with `parse_contents = Self::parse_list`: an ordinary call of that
+                # function - hooks and the inline policy see it as such
+                cf = self.find_fn(clo.path)
+                if cf is not None and cf.kind != "closure" and len(tup.fields) == cf.arg_count:
+                    base = len(env)
+                    env.extend(tup.fields)
+                    t2 = dict(t)
+                    t2["callee"] = {"path": clo.path, "resolved": clo.path, "resolved_kind": "Item", "crate": cf.crate,
+                                    "resolved_crate": cf.crate, "method": clo.path.rsplit("::", 1)[-1]}
+                    t2["args"] = [{"c": "move", "pl": {"l": base + i, "p": []}} for i in range(len(tup.fields))]
+                    t2["arg_tys"] = [cf.local_ty(i + 1) for i in range(cf.arg_count)]
+                    t2["_redispatched"] = True
+                    return self._call(fn, env, bb, t2, path, depth)
             if isinstance(clo, (Closure, FnItem)) and isinstance(tup, Tup):
                 r = self.call_closure(clo, list(tup.fields), fn, env, bb, t, path, depth, cont)
                 if r is not None:
